@@ -239,6 +239,13 @@ must be the server's. -/
 def staleHit (m : SeqMon) (k : Bytes) (hit : Bool) (tools : Tools) : Option Clause :=
   if m.newProto && m.fresh && hit && tools != (serverPage m.server m.pageSize k).1 then some .seqStaleList else none
 
+/-- … and when they are, the client holds the current definition of every tool of that page although the server was not
+asked: the observer counts them as listed. -/
+def learnHit (m : SeqMon) (k : Bytes) (hit : Bool) (tools : Tools) : SeqMon :=
+  if m.newProto && m.fresh && hit && tools == (serverPage m.server m.pageSize k).1 then
+    { m with listed := toolNames tools ++ m.listed }
+  else m
+
 /-- One record: the operation and the IMPLEMENTATION's observation. -/
 def seqMonStep (c : B64) (m : SeqMon) : SeqOp → SeqObs → SeqMon × Option Clause
   | .setTool n p, _ =>
@@ -250,9 +257,9 @@ def seqMonStep (c : B64) (m : SeqMon) : SeqOp → SeqObs → SeqMon × Option Cl
   | .notified, _ => ({ m with listed := [], seen := [], fresh := true, pend := m.pend.map (fun x => (x.1, true)) }, none)
   | .list k, .listed hit tools _ =>
     if m.newProto && !hit then ({ m with listed := toolNames tools ++ m.listed, seen := tools ++ m.seen }, none)
-    else (m, staleHit m k hit tools)
+    else (learnHit m k hit tools, staleHit m k hit tools)
   | .list _, _ => (m, none)
-  | .listSend k, .listed hit tools _ => (m, staleHit m k hit tools)
+  | .listSend k, .listed hit tools _ => (learnHit m k hit tools, staleHit m k hit tools)
   | .listSend _, .sent => (match m.pend with | none => { m with pend := some (false, false) } | some _ => m, none)
   | .listSend _, _ => (m, none)
   | .listRecv, .listed _ tools _ =>
